@@ -76,20 +76,20 @@ def search(tier, seed):
             return total, "the framed client codec panicked while decoding:\nread script %s\nobserved %s" % (sess[:700], obs[-300:]), samples, len(seen)
     samples.append("framed: %d chunked scripts through Framed<MockIo, ImapCodec>, none panicked" % len(rows))
     # nesting 1..20000 at every recursive position, on a 2 MiB thread in a child process, debug and release
-    for release in (False, True):
+    for release in ("stack", True):
         rows = crash_sweep(release)
         for h, v in rows:
             total += 1
             seen.add(h)
             if v not in ("OK", "INC", "ERR"):
                 return total, "parsing on a 2 MiB thread (%s build) ended with %s:\ninput (%d bytes) %s" % (
-                    "release" if release else "debug", v, len(h) // 2, C.show_input(h, 160)), samples, len(seen)
-        samples.append("nesting sweep (%s): %d inputs, e.g. %s -> %s" % ("release" if release else "debug", len(rows), C.show_input(rows[7][0], 60), rows[7][1]))
+                    "release" if release is True else "debug, opt-level 0", v, len(h) // 2, C.show_input(h, 160)), samples, len(seen)
+        samples.append("nesting sweep (%s): %d inputs, e.g. %s -> %s" % ("release" if release is True else "debug, opt-level 0", len(rows), C.show_input(rows[7][0], 60), rows[7][1]))
     # the same on inputs read off the grammar as it is translated now (covers recursion through rules the harness's
     # generators do not know)
     probes, err = grammar_probes()
     if probes:
-        for release in (False, True):
+        for release in ("stack", True):
             rc, out = C.run_harness(["crash"], inp="\n".join(probes) + "\n", release=release, timeout=1200)
             rows = [l.split("\t") for l in out.split("\n") if l]
             for h, v in rows:
@@ -97,7 +97,7 @@ def search(tier, seed):
                 seen.add(h)
                 if v not in ("OK", "INC", "ERR"):
                     return total, "parsing on a 2 MiB thread (%s build) ended with %s:\ninput (%d bytes, read off the grammar: a prefix reaching a self-calling rule, then its cycle repeated) %s" % (
-                        "release" if release else "debug", v, len(h) // 2, C.show_input(h, 160)), samples, len(seen)
+                        "release" if release is True else "debug, opt-level 0", v, len(h) // 2, C.show_input(h, 160)), samples, len(seen)
         samples.append("grammar probes: %d inputs (prefix reaching a self-calling rule ++ cycle^n, n = 40, 1500, 20000), e.g. %s" % (len(probes), C.show_input(probes[0], 60)))
     else:
         samples.append("grammar probes: not available (%s)" % (err or "no self-calling rule reachable")[:200])
@@ -107,7 +107,7 @@ def search(tier, seed):
 def run(tier, seed, t0):
     okr, problems = C.regen()
     proof = C.proof_stage(PROP, PROPFILE, extra_targets=["Extract.vo"]) if okr else dict(ok=False, failure=problems, obligations=0, discharged=0, names=[])
-    for rel in (False, True):
+    for rel in (False, "stack", True):
         okh, outh = C.build_harness(rel)
         if not okh:
             raise RuntimeError("harness build failed:\n" + outh[-3000:])
